@@ -51,6 +51,7 @@ inductive TExpr where
   | assign (lhs e : TExpr)
   | while (c b : TExpr)
   | forRange (x : String) (lo hi b : TExpr)
+  | forEach (x : String) (coll b : TExpr)                   -- `for x in coll` over an Array / Vec
   | brk | cont
   | ret (e : Option TExpr)
   | index (a i : TExpr)
@@ -155,6 +156,7 @@ def erase : TExpr → Expr
   | .assign l e => .assign (erase l) (erase e)
   | .while c b => .while (erase c) (erase b)
   | .forRange x lo hi b => .forRange x (erase lo) (erase hi) (erase b)
+  | .forEach x c b => .forEach x (erase c) (erase b)
   | .brk => .brk
   | .cont => .cont
   | .ret e => .ret (eraseOpt e)
@@ -254,6 +256,7 @@ partial def readTExpr (s : Sexp) : Except String TExpr :=
   | list [atom "while", c, b] => do .ok (.while (← readTExpr c) (← readTExpr b))
   | list [atom "for", atom x, lo, hi, b] => do
     .ok (.forRange x (← readTExpr lo) (← readTExpr hi) (← readTExpr b))
+  | list [atom "foreach", atom x, c, b] => do .ok (.forEach x (← readTExpr c) (← readTExpr b))
   | list [atom "break"] => .ok .brk
   | list [atom "continue"] => .ok .cont
   | list [atom "return"] => .ok (.ret none)
